@@ -27,6 +27,9 @@
 // (the unpack target nested as S/outer/out and spelled with trailing slash, doubled slash, '.' and
 // '..' segments, relative to the working directory); chains (two links that only escape together + a write-through into every existing sandbox sibling
 // + optionally a link that makes that entry required; all orders, every 1-2 layer split);
+// trampolines (a link to '.', a link through it that really lands on the parent, tmp, cwd or a
+// sibling whose name extends the target's name - out2, out-evil, out.bak - plus a lexical twin inside
+// the target so the link is not removed as dangling);
 // thorough only: triples = ordered pair + a write-through of one of its links, inserted at every
 // position, every 1-2 layer split. Entry points: image.FromV1Image + CleanUp,
 // image.FromTarball + CleanUp (singles and thorough pairs only - it is FromV1Image behind
@@ -215,7 +218,7 @@ func forEachImageCase(thorough bool, fn func(idx int, c imgCase) bool) []blockIn
 			l1 := entry{Name: ch.n1, Kind: lk, Target: ch.t1}
 			l2 := entry{Name: ch.n2, Kind: lk, Target: ch.t2}
 			var ws []entry
-			for _, sib := range []string{"out2", "out-evil", "cwd", "tmp"} {
+			for _, sib := range []string{"out2", "out-evil", "out.bak", "cwd", "tmp"} {
 				n := ch.n2 + "/" + sib + "/x"
 				ws = append(ws, entry{Name: n, Kind: "f"}, entry{Name: n, Kind: "s", Target: "keep"}, entry{Name: n, Kind: "h", Target: "keep"}, entry{Name: n, Kind: "d"})
 			}
@@ -249,6 +252,60 @@ func forEachImageCase(thorough bool, fn func(idx int, c imgCase) bool) []blockIn
 									emit(imgCase{EP: "tarball", Cfg: c, Layers: layers})
 								}
 							}
+						}
+					}
+				}
+			}
+		}
+	}
+	end()
+
+	// trampolines: a link to "." (or a nested link to ".."), a second link whose target goes through
+	// it and then ".." so that it passes the lexical check but really lands on the parent, on tmp/cwd,
+	// or on a sibling whose name extends the target's name (out2, out-evil, out.bak), and a third
+	// entry that gives the lexically cleaned target a twin inside the target directory (so the link
+	// is not removed as dangling). All orders, every 1-2 layer split, all four entry points.
+	begin("trampolines: link to '.', link through it landing on parent / tmp / cwd / each prefix sibling, + lexical twin inside the target; all orders, 1-2 layers")
+	type tramp struct{ n, t, via string }
+	for _, tr := range []tramp{{"t", ".", "t/t/.."}, {"a/b", "..", "a/b/.."}} {
+		for _, lk := range []string{"s", "h"} {
+			l1 := entry{Name: tr.n, Kind: lk, Target: tr.t}
+			for _, land := range []string{"", "out-evil", "out2", "out.bak", "tmp", "cwd", "out-evil/keep"} {
+				tgt := tr.via
+				twinName := land
+				if land != "" {
+					tgt += "/" + land
+				}
+				// where the cleaned target points lexically: <dir of link>/<rest after the trampoline is cancelled>
+				if tr.n == "a/b" {
+					twinName = strings.TrimSuffix("a/"+land, "/")
+				}
+				l2 := entry{Name: "esc", Kind: lk, Target: tgt}
+				var twins []entry
+				if land == "" {
+					twins = []entry{{Name: "placeholder", Kind: "f"}}
+				} else if strings.Contains(land, "/") {
+					twins = []entry{{Name: twinName, Kind: "f"}}
+				} else {
+					twins = []entry{{Name: twinName + "/placeholder", Kind: "f"}, {Name: twinName, Kind: "d"}, {Name: twinName, Kind: "f"}}
+				}
+				for _, tw := range twins {
+					base := []entry{l1, l2, tw}
+					for _, perm := range scankitPerms(3) {
+						seq := []entry{base[perm[0]], base[perm[1]], base[perm[2]]}
+						for _, c := range []int{0, 2, 4} {
+							emit(imgCase{EP: "raw", Cfg: c, Layers: [][]entry{seq}})
+						}
+						for cut := 0; cut < 3; cut++ {
+							layers := [][]entry{seq}
+							if cut > 0 {
+								layers = [][]entry{seq[:cut], seq[cut:]}
+							}
+							for _, c := range []int{0, 4} {
+								emit(imgCase{EP: "squashed", Cfg: c, Layers: layers})
+							}
+							emit(imgCase{EP: "v1", Cfg: 0, Layers: layers})
+							emit(imgCase{EP: "tarball", Cfg: 0, Layers: layers})
 						}
 					}
 				}
